@@ -207,6 +207,9 @@ def report(pid, tier, seed, m, sel, res, findings, cmd, t0, outdir):
             lines.append("UNDECIDED property=%s: %s in %s (%s)" % (pid, f["msg"], f["fn"], f["kind"]))
     for f in others[:5]:
         lines.append("NOTE: obligation of other properties %s fails in a shared function: %s (%s)" % (",".join(f["tags"]), f["clause"] or f["fn"], f["msg"]))
+    for k in selected:
+        for la in m["functions"][k].get("lost_anchors", []):
+            lines.append("NOTE: %s: proof hint dropped, its anchor no longer exists: %s" % (k, la))
     for k in m.get("without_record", []):
         lines.append("NOTE: function %s is not known to the overlay (new in the source): verified for built-in obligations only" % k)
     wall = time.time() - t0
